@@ -268,7 +268,7 @@ Definition fsck_entries (es : list rawent) : list fmsg :=
   (if any (fun e => beq (r_name e) [46]) then [MHasDot] else []) ++
   (if any (fun e => beq (r_name e) [46; 46]) then [MHasDotdot] else []) ++
   (if any (fun e => git_has_dotgit (r_name e)) then [MHasDotgit] else []) ++
-  (if any (fun e => match r_mtext e with 48 :: _ => true | _ => false end) then [MZeroPadded] else []) ++
+  (if any (fun e => match r_mtext e with c :: _ => c =? 48 | [] => false end) then [MZeroPadded] else []) ++
   (if dup then [MDuplicateEntries] else []) ++
   (if uns then [MTreeNotSorted] else []) ++
   (if any (fun e => (Z.land (r_mode e) 61440 =? 40960)%Z && git_is_dotgitmodules (r_name e)) then [MGitmodulesSymlink] else []).
